@@ -384,7 +384,8 @@ def finish(res, claim, t_start, extra_cov=None):
         "trusted_base": sorted(set(res.trusted)),
         "samples": samples,
         "by_backend": {k: {"obligations": v[0], "discharged": v[1]} for k, v in by_backend.items()},
-        "units": [{"unit": u["unit"], "fn": u["fn"], "file": u["file"], "backend": u.get("backend", "verus")} for u in res.units],
+        "units": [dict({"unit": u["unit"], "fn": u["fn"], "file": u["file"], "backend": u.get("backend", "verus")},
+                       **({"callee_contracts_and_rules_used": u["callee_contracts_used"][:60]} if u.get("callee_contracts_used") else {})) for u in res.units],
         "assumed_contracts": res.assumed,
         "overlay": res.overlay_records,
         "rewrites": res.rewrites,
